@@ -55,8 +55,9 @@ CLAIMED = {
             '5 C12'),
     'C04': ('Theorems over the loop model: the stated reason is the first violated limit and the last row is the row of the violating '
             'state; every state carried on respects the limits; limits never perturb earlier rows (one-step lemma + induction over '
-            'iterations: prefix of the run without the limit); enumeration of all ways a run can end. Termination itself is NOT proved '
-            '(fuel in the model; arithmetic core only) and is watched by a watchdog. Tie: bit-exact correspondence on limit configurations.',
+            'iterations: prefix of the run without the limit); enumeration of all ways a run can end; a state below the maximum drop cannot be carried on. Termination is proved in PARTIAL form '
+            '(hypothesis: a positive lower bound on the time step, i.e. a speed bound along the run): the height then falls below any floor after finitely many '
+            'steps; the remaining gap is watched by a watchdog and a per-call time limit. Tie: bit-exact correspondence on limit configurations.',
             'hand Lean model + induction over iterations, bit-exact differential run, truthfulness/prefix oracle + watchdog on the real code',
             '5 C04'),
     'C05': ('Theorems over the row model: every column is the documented function (Mach, kinetic energy constant within 1e-4, OGW, sight-line '
@@ -72,21 +73,24 @@ CLAIMED = {
             '5 C07'),
     'C08': ('Theorems over the atmosphere model with regenerated constants: ISA temperature exact, pressure within 1e-4 over the troposphere '
             '(rpow/exp/log bounds), speed-of-sound constant within 1e-4, dry density within 5e-5 (compressibility bounded over the box), '
-            'extrapolation law = barometric composition identity, shortcut, clamped pressure base, vacuum zero, humidity normalisation. '
-            'Monotonicity with Z,f live: search only. Tie: bit-exact correspondence of constructor and altitude look-ups.',
+            'extrapolation law = barometric composition identity, shortcut, clamped pressure base, vacuum zero (also after the humidity setter), humidity normalisation. '
+            'Monotonicity with Z,f live: search only. Tie: bit-exact correspondence of constructor, humidity setter and altitude look-ups (also on the same object before/after the setter).',
             'hand Lean model + real-analysis bounds, regenerated constants, bit-exact differential run, ISA/grid oracle',
             '5 C08'),
     'C01': ('Theorems over the integrator model for an arbitrary environment: the loop body IS semi-implicit Euler for the stated vector field (air-relative '
             'velocity in speed and direction, density and sound speed at station altitude + y, BC in the denominator, wind of the active segment), initial '
             'state and barrel direction, and the exact closed form in a vacuum for any number of steps and any step sequence (error term (g/2) sum dt^2 <= '
-            '|g|/2 calc_step t). Convergence to the ODE solution for real drag is NOT proved: RK4-reference search only. Tie: bit-exact trajectories.',
+            '|g|/2 calc_step t). Convergence is proved in PARTIAL form: a discrete Lax/Groenwall theorem (a (1+rho)-stable, eps-consistent one-step scheme is within '
+            'eps n exp(rho n) after n steps; with rho = L h, eps = C h^2 first order in the maximum step) instantiated for the model\'s own step map; the Lipschitz and '
+            'consistency constants of the real drag function stay hypotheses and are covered by the RK4-reference search. Tie: bit-exact trajectories.',
             'hand Lean model + induction over steps, bit-exact differential run, independent RK4 reference + step refinement on the real code',
             '5 C01'),
     'C02': ('Theorems over the zero-finder model, generic in the miss function: a returned elevation has its sampled miss (height of the '
             'trajectory interpolated at the zero distance minus the sight-line height there) within the accuracy; otherwise an error is raised '
-            '(propagated unchanged, or ZeroFindingError above the accuracy with bounded iterations); failed zero leaves the stored zero; '
-            'PARTIAL convergence theorem (contraction is a hypothesis). Tie: bit-exact correspondence of zero_angle incl. error payloads; '
-            'fire-back oracle on the real code.',
+            '(propagated unchanged, or ZeroFindingError above the accuracy with bounded iterations); the row at the aim point of the run fired with the returned zero is '
+            'within accuracy x |cos look| of the sight line; the search starts on the sight line and, for un-canted shots, its outcome does not depend on the stored zero '
+            'or hold-over; failed zero leaves the stored zero; PARTIAL convergence theorem (contraction is a hypothesis; one open known finding: zeroing within the last '
+            'per cent of the maximum range). Tie: bit-exact correspondence of zero_angle incl. error payloads; fire-back oracle with failure classification on the real code.',
             'hand Lean model + induction over iterations, bit-exact differential run, fire-back oracle',
             '5 C02'),
     'C03': ('Theorem C03_rows_exact over the loop+filter model for EVERY state sequence (any physics) that moves forward with per-step advance <= '
@@ -106,12 +110,13 @@ CLAIMED = {
             'constructor, and the lists of global writers / foreign stores / self-mutators are exactly the documented ones; (abstract, for all histories and all '
             'schedules) a calculator with that frame property gives, in any history incl. failing calls and under any interleaving of calculators owned by distinct '
             'threads, the outcome of a fresh calculator. Tie: every call inside random histories on long-used calculators compared bit for bit with the '
-            'history-free model + deep argument snapshots; real threads are sampled only.',
+            'history-free model (built from the construction-time configuration) + deep argument snapshots; every call repeated on a brand-new calculator; real threads are sampled only.',
             'regenerated read/write sets + decide, induction over histories and schedules, bit-exact differential histories, snapshot + thread sampling',
             '5 C10'),
     'C11': ('Theorems over the loop model: state/wind-sock/by-products after an iteration are those of the physical step alone (any flags, steps, '
             'filter state); by induction a completed run ends on the shot\'s physical state sequence, only the prefix length depends on the request; '
-            'distance-trigger rows are the interpolant of two consecutive states; plain vs extra and with/without time step one-step simulations. '
+            'distance-trigger rows are the interpolant of two consecutive states; plain vs extra lifted by induction to whole runs (every plain row is in the extra-data output), '
+            'with/without time step one-step simulation. '
             'Tie: bit-exact correspondence of whole trajectories; request pairs on the real code.',
             'hand Lean model + induction over the loop + filter normal form, bit-exact differential run, metamorphic request pairs',
             '5 C11'),
